@@ -1,6 +1,7 @@
 // C19 — Partition, grid, search, list and summary-statistics helpers meet their specs.
 // M3: the finite parts are enumerated completely.
 #include "mc/mc.hpp"
+#include <climits>
 #include "mc/exit_trap.hpp"
 #include <iostream>
 #include <vector>
@@ -181,11 +182,18 @@ template <class T> static void list_templates(const std::vector<T>& A, const std
 		int n = v.size();
 		std::string key = tname + ",list#" + std::to_string(a);
 		// Sub_List: all i1 in [-2,n+1], i2 in [0,n+2]
-		for(int i1 = -2; i1 <= n + 1; i1++)
-			for(unsigned i2 = 0; i2 <= (unsigned)n + 2; i2++)
+		// ... and the extreme index values of both parameter types ("until the end" markers)
+		std::vector<int> i1s;
+		std::vector<unsigned> i2s;
+		for(int i1 = -2; i1 <= n + 1; i1++) i1s.push_back(i1);
+		for(unsigned i2 = 0; i2 <= (unsigned)n + 2; i2++) i2s.push_back(i2);
+		for(int x : {INT_MIN, INT_MIN + 1, -1000000, INT_MAX - 1, INT_MAX}) i1s.push_back(x);
+		for(unsigned x : {(unsigned)INT_MAX - 1, (unsigned)INT_MAX, (unsigned)INT_MAX + 1u, UINT_MAX - 1, UINT_MAX, 1000000u}) i2s.push_back(x);
+		for(int i1 : i1s)
+			for(unsigned i2 : i2s)
 			{
 				std::vector<T> e;
-				for(int i = std::max(i1, 0); i <= std::min((int)i2, n - 1); i++) e.push_back(v[i]);
+				for(long long i = std::max<long long>(i1, 0); i <= std::min<long long>((long long)i2, n - 1); i++) e.push_back(v[i]);
 				std::vector<T> s = Sub_List(v, i1, i2);
 				g_cases++;
 				if(s != e) fail("lists", key + ",Sub_List(" + std::to_string(i1) + "," + std::to_string(i2) + ")", "sub_list_wrong", std::to_string(s.size()) + " elements, expected " + std::to_string(e.size()));
@@ -263,12 +271,20 @@ static void summary_statistics(unsigned long long& unit)
 				if(first) { m0 = m; v0 = v; first = false; }
 				if(!(std::fabs(m - m0) <= 4 * mc::U_ * (std::fabs(m0) + 8)) || !(std::fabs(v - v0) <= 16 * n * mc::U_ * (v0 + 64))) fail("summary", key, "not_permutation_invariant", "mean/variance change under permutation beyond rounding");
 				// translation and scaling by powers of two (exact)
-				for(double sc : {4.0, 0.125, -2.0})
+				for(double sc : {4.0, 0.125, -2.0, std::ldexp(1.0, -60), std::ldexp(-1.0, -200), std::ldexp(1.0, 60), std::ldexp(1.0, 300)})
 				{
 					std::vector<double> t(n);
 					for(int i = 0; i < n; i++) t[i] = sc * d[i];
 					if(!mc::same_bits(Arithmetic_Mean(t), sc * m) && !(m == 0)) fail("summary", key, "mean_not_scale_equivariant", "scale " + mc::dec(sc));
 					if(!mc::same_bits(Variance(t), sc * sc * v)) fail("summary", key, "variance_not_scale_equivariant", "scale " + mc::dec(sc));
+					// the standard deviation scales with |scale| (a power of two: exactly), at every magnitude of the data
+					double st = Standard_Deviation(t);
+					if(!mc::same_bits(st, std::fabs(sc) * s)) fail("summary", key, "standard_deviation_not_scale_equivariant", "scale " + mc::dec(sc) + ": " + mc::dec(st) + " instead of " + mc::dec(std::fabs(sc) * s));
+					std::vector<DataPoint> dp;
+					for(double x : t) dp.push_back(DataPoint(x, 1.0));
+					std::vector<double> wa = Weighted_Average(dp);
+					double se = std::sqrt((double)var / n) * std::fabs(sc);
+					if(wa.size() != 2 || !(std::fabs(wa[1] - se) <= 64 * n * mc::U_ * (se + 8 * std::fabs(sc)))) fail("summary", key, "equal_weights_do_not_reduce_to_mean", "scale " + mc::dec(sc) + ": standard error " + (wa.size() == 2 ? mc::dec(wa[1]) : "?") + " expected " + mc::dec(se));
 				}
 				{
 					std::vector<double> t(n);
